@@ -398,6 +398,8 @@ func c11E2E(r *vlib.Run, valids []*c11Valid, cases []interface{}, nv int, scratc
 		}
 	}
 	os.MkdirAll(scratch, 0755)
+	smallLineCfg := filepath.Join(scratch, "small-maxline.json")
+	os.WriteFile(smallLineCfg, []byte(`{"Server":{"MaxLineLength":1024}}`), 0644)
 	vlib.Parallel(len(idx), 12, func(k int) {
 		i := idx[k]
 		v := valids[i]
@@ -414,14 +416,25 @@ func c11E2E(r *vlib.Run, valids []*c11Valid, cases []interface{}, nv int, scratc
 		os.WriteFile(in, []byte(body), 0644)
 		defer os.Remove(in)
 		os.Remove(q.Outfile.Path)
-		res := runServerless(r, "dmap", []string{"--noColor", "--files", in, "--query", v.Text}, "", nil)
+		text, cfg := v.Text, ""
+		if k%5 == 4 && !strings.HasPrefix(text, " ") {
+			// a server with a small MaxLineLength (the integration test value) and
+			// a query that is nearly as long: the grammar allows any amount of
+			// whitespace between tokens
+			if sp := strings.Index(text, " "); sp > 0 && !strings.ContainsAny(text[:sp], "\"`") {
+				text = text[:sp] + strings.Repeat(" ", 880-len(text)%97) + text[sp:]
+				cfg = smallLineCfg
+				r.Count("e2e_runs_long_query_small_max_line_length", 1)
+			}
+		}
+		res := runServerless(r, "dmap", []string{"--noColor", "--files", in, "--query", text}, cfg, nil)
 		r.Eval("")
 		r.Count("e2e_denotation_runs", 1)
 		if res.TimedOut {
 			r.Inconclusive("dmap-watchdog")
 			return
 		}
-		d := map[string]interface{}{"query": v.Text, "abstract": q, "table": v.T, "exit": res.Exit, "hung": res.Hung,
+		d := map[string]interface{}{"query": text, "abstract": q, "table": v.T, "exit": res.Exit, "hung": res.Hung,
 			"stderr": vlib.Trunc(string(res.Stderr), 1000), "stdout": vlib.Trunc(string(res.Stdout), 600)}
 		if res.Hung || res.Exit != 0 || res.Panicked() {
 			r.Violation("e2e-dmap-failed", d)
